@@ -167,6 +167,17 @@ def run(ctx):
         ctx.oracle_cases += 1
         ctx.count('kind.%s' % m['kind'])
         ctx.case((c.tag, m['pt']), True, sample={'argv': [a.decode('latin-1') for a in c.real_argv[2:]], 'container': c.tag, 'documented_file_sector': m['want']})
+        # oracle-spec tie: the documented offset and slot status used here are Beeb.Spec.offset* / slotPresent
+        if m['kind'] == 'mmb':
+            vlib.spec_tie('slotpresent %d' % m['status'], '1' if m['status'] in (0x00, 0x0F) else '0')
+        if isinstance(m['want'], int) and len(m['pt']) == 3 and all(isinstance(x, int) for x in m['pt']):
+            sd_, t_, s_ = m['pt']
+            if m['kind'] == 'ni':
+                vlib.spec_tie('offni %d %d %d %d %d' % (m['tracks'], m['spt'], sd_, t_, s_), str(m['want']))
+            elif m['kind'] == 'il':
+                vlib.spec_tie('offil %d %d %d %d' % (m['spt'], sd_, t_, s_), str(m['want']))
+            elif m['kind'] == 'mmb':
+                vlib.spec_tie('offmmb %d %d %d' % (sd_, t_, s_), str(m['want']))
         if common.crash_violation(ctx, c):
             continue
         if m['kind'] == 'mmb' and m['status'] not in (0x00, 0x0F):
